@@ -534,7 +534,7 @@ def percent_format(it, fmt, arg):
     # remember how the string was built (re.compile of a formatted pattern)
     used = [getter(m, k) for k, m in enumerate(
         [m for m in specs if m.group(2) != '%'])] if not named else []
-    ctx.ghost.setdefault('fmt_origin', {})[res.e.get_id()] = (f, used)
+    ctx.ghost.setdefault('fmt_origin', {})[res.e.get_id()] = (f, used, res.e)
     return res
 
 
@@ -1003,7 +1003,19 @@ def builtin_int(it, args, kwargs):
         ok = z3.InRe(v.e, RE_INT)
         # CPython refuses very long digit strings (ValueError as well)
         ok2 = z3.And(ok, z3.Length(v.e) <= MAX_STR_DIGITS)
+        if is_concrete_str(v) and not v.b:
+            # literal: CPython's own answer
+            try:
+                return VInt(z3.IntVal(int(concrete_str(v))))
+            except ValueError:
+                it.raise_(ValueError)
         if not ctx.branch(ok2):
+            ascii_only = z3.InRe(v.e, z3.Star(z3.Range(chr(0), chr(127))))
+            if not v.b and ctx.branch(z3.Not(ascii_only)):
+                # str with non-ASCII characters: CPython also accepts
+                # Unicode digits and spaces - outcome left open (both)
+                if ctx.choose(2) == 0:
+                    return VInt(ctx.fresh_int('int_unicode'))
             it.raise_(ValueError)
         r = F_IntOfStr(v.e)
         # exact value for plain digit strings (optionally signed)
